@@ -336,3 +336,38 @@ Proof.
   rewrite !(opt_enc_elems (ss_codec m) ss_serialize _ (ss_codec_ok m)) by (auto using ss_enc_elems).
   reflexivity.
 Qed.
+
+(* ------------------------------------------------------------------ HOW TO ADD A COMPOSITE TYPE (by composition)
+
+   Record sparse := mksparse { sv_len : N; sv_high : bitvec; sv_low : intvec }.
+   (* the loader's checks and rebuilding, in the order of the Rust; every failed check is IoErr InvalidData *)
+   Definition sparse_from (sp : selpath) (m : mode) (p : N * (bitvec * intvec)) : io sparse :=
+     let '(len, (high, low)) := p in
+     if negb (ilen low =? bv_count_ones high) then IoErr InvalidData else
+     let+ h1 := io_of_res (bv_enable_select_t sp m Identity high) in
+     let+ h2 := io_of_res (bv_enable_select_t sp m Complement h1) in
+     IoOk (mksparse len h2 low).
+   Definition sparse_ok sp m (s : sparse) : Prop := ... (* what the builder guarantees *)
+   (* fields in layout order (state expected_SparseVector : layout next to it and prove layout_SparseVector_ok
+      and fields_consistent by reflexivity) *)
+   Definition sparse_codec sp m : codec sparse :=
+     with_wf (conv_codec (seq_codec usize_codec (seq_codec (bv_codec m) (iv_codec m)))
+                         (fun s => (sv_len s, (sv_high s, sv_low s))) (sparse_from sp m)) (sparse_ok sp m).
+   Lemma sparse_codec_ok sp m : codec_ok (sparse_codec sp m).
+   Proof.
+     apply with_wf_ok.
+     - apply conv_codec_ok. repeat apply seq_codec_ok;
+         [exact usize_codec_ok|exact (bv_codec_ok m)|exact (iv_codec_ok m)].
+     - (* the only real obligation: sparse_ok s -> fields well-formed /\ sparse_from (fields of s) = IoOk s *)
+   Qed.
+
+   codec_ok gives ok_rt (round trip, exact consumption), ok_size, ok_prefix (truncation) for the new type, and the
+   generic theorems apply to it at once: option_codec_ok (Option<T>), dec_all_app / dec_all_prefix (streams of
+   several structures), skip_option_app / skip_option_prefix. Use dseq_codec when a later field's format depends
+   on an earlier one and rep_codec n c for n structures without a length prefix (WMCore: width, checked to be
+   1..64 BEFORE anything is sized by it, then width bitvectors:
+   dseq_codec (conv_codec usize_codec (fun w => w) (fun w => if (w =? 0) || (64 <? w) then IoErr InvalidData else IoOk w))
+              (fun w => rep_codec (N.to_nat w) (bv_codec m))). When checks are
+   interleaved with reads (BitVector::load) write c_dec by hand and chain prefix_bind / prefix_bind_last as in
+   bv_codec_ok. On the harness side add a generator returning G<T> (harness/src/c06.rs), a constructor of [ty],
+   a [recipe] and a case of [build] (Check/SerCommon.v). *)
